@@ -306,6 +306,9 @@ PLAN["C03"] = {
     "verus": [],
     "kani": [{"tiers": Q, "jobs": 5, "timeout": 900, "harnesses": K_SUSPEND},
              {"tiers": T, "jobs": 3, "timeout": 5400, "mem_gb": 20, "harnesses": dict(K_DUMP, **K_GENERATE)}],
+    "native_files": [{"name": "c03_error_paths", "tiers": Q, "tests": {
+        "target_runs_again_after_every_return_path": H("B'", "MinidumpWriter::dump on a live 4-thread child; afterwards no thread is traced or stopped",
+            "5 option sets (incl. 1 ms stop timeout), an unreadable app-memory region, an I/O error at every destination write index")}}],
     "trusted": ["L5: 'delivered exactly once', group-stop vs tracing-stop and real interleavings are kernel behaviour; only the writer's side of the protocol is decided"],
     "samples": ["vk_suspend_thread_protocol: every non-SIGSTOP stop signal seen while waiting is passed to ptrace::cont exactly once, in order"],
 }
